@@ -33,6 +33,9 @@ var menu = [][]mapref.DP{
 	{{Type: "g", Name: "g", Value: 3, TS: 2}},
 	{{Type: "c", Name: "a", Value: 5, Rate: 1, TS: 3}, {Type: "g", Name: "g", Value: 9, TS: 0}, {Type: "s", Name: "s", Str: "z", TS: 3}},
 	{},
+	// a set series without members (what a forwarder sends for an idle set, and what an aggregator holds
+	// after a flush) carrying the newest timestamp
+	{{Type: "s", Name: "s", Empty: true, TS: 4}},
 }
 
 func toMetric(d mapref.DP) *gostatsd.Metric {
@@ -47,6 +50,10 @@ func toMetric(d mapref.DP) *gostatsd.Metric {
 func buildMap(dps []mapref.DP) *gostatsd.MetricMap {
 	mm := gostatsd.NewMetricMap(false)
 	for _, d := range dps {
+		if d.Empty {
+			mm.MergeSet(d.Name, gostatsd.FormatTagsKey(gostatsd.Source(d.Source), d.Tags), gostatsd.Set{Values: map[string]struct{}{}, Timestamp: gostatsd.Nanotime(d.TS), Source: gostatsd.Source(d.Source), Tags: append(gostatsd.Tags{}, d.Tags...)})
+			continue
+		}
 		mm.Receive(toMetric(d))
 	}
 	return mm
@@ -115,6 +122,10 @@ func checkSeq(seq []int) {
 	mm := gostatsd.NewMetricMap(false)
 	for _, i := range seq {
 		for _, d := range menu[i] {
+			if d.Empty {
+				mm.Merge(buildMap([]mapref.DP{d}))
+				continue
+			}
 			mm.Receive(toMetric(d))
 		}
 	}
@@ -125,6 +136,30 @@ func checkSeq(seq []int) {
 		ag.ReceiveMap(buildMap(menu[i]))
 	}
 	ag.Process(func(m *gostatsd.MetricMap) { compare("aggregator", seq, m, w, "") })
+	// 4b. aggregator with a flush (Flush/Process/Reset, expiry 0) after the first map: series persist with
+	//     empty values, so only the newest-timestamp clause is compared for them
+	if len(seq) >= 2 {
+		ag := statsd.NewMetricAggregator(nil, 0, 0, 0, 0, gostatsd.TimerSubtypes{}, 0)
+		ag.ReceiveMap(buildMap(menu[seq[0]]))
+		ag.Flush(time.Second)
+		ag.Process(func(*gostatsd.MetricMap) {})
+		ag.Reset()
+		for _, i := range seq[1:] {
+			ag.ReceiveMap(buildMap(menu[i]))
+		}
+		ag.Process(func(m *gostatsd.MetricMap) {
+			res.Evaluations++
+			g, err := mapref.FromSnapshot(fx.Snapshot(m))
+			if err != nil {
+				return
+			}
+			for k, ws := range w {
+				if gs := g[k]; gs != nil && gs.TS != ws.TS {
+					res.Violate("aggregator-flush-between timestamp", fmt.Sprintf("sequence %v with a flush after the first map: series %s keeps timestamp %d, the newest seen is %d", seq, ws.String(), gs.TS, ws.TS), map[string]any{"seq": seq, "path": "aggregator-flush-between"})
+				}
+			}
+		})
+	}
 	// 5. consolidator, sequential, 1 and 2 slots
 	for slots := 1; slots <= 2; slots++ {
 		sink := make(chan []*gostatsd.MetricMap, 1)
@@ -135,6 +170,10 @@ func checkSeq(seq []int) {
 			} else {
 				var ms []*gostatsd.Metric
 				for _, d := range menu[i] {
+					if d.Empty {
+						mc.ReceiveMetricMap(buildMap([]mapref.DP{d}))
+						continue
+					}
 					ms = append(ms, toMetric(d))
 				}
 				mc.ReceiveMetrics(ms)
